@@ -529,7 +529,7 @@ enabled = false
 
 [pools.{POOL}.plugins.table_access]
 enabled = true
-tables = ["pg_user", "secrets"]
+tables = ["pg_user", "secrets", "Orders"]
 
 [pools.{POOL}.plugins.intercept]
 enabled = true
@@ -584,6 +584,9 @@ fn c19_wire(seed: u64, plugins_on: bool, rep: &Report) -> Result<(), String> {
         ("pg_catalog.\"pg_user\"", "schema_quoted_name", true),
         ("secrets", "lower2", true),
         ("\"PG_USER\"", "quoted_upper_is_other_relation", false),
+        ("\"Orders\"", "quoted_mixed_listed", true),
+        ("public.\"Orders\"", "schema_quoted_mixed_listed", true),
+        ("Orders", "unquoted_mixed_folds_to_other_relation", false),
         ("pg_users", "listed_as_substring", false),
         ("orders", "unlisted", false),
     ];
@@ -749,7 +752,7 @@ fn c19_wire(seed: u64, plugins_on: bool, rep: &Report) -> Result<(), String> {
 
 pub fn run_c19(tier: &str) -> i32 {
     let rep = Report::new("C19", tier, "exploration",
-        "lib leg: statements from the grammar with relation slots filled from {listed, unlisted, substring, column/alias-only} x 8 spellings x ~20 positions, execute_plugins verdict vs generator label, intercept rules modulo case/whitespace; wire leg: 11 positions x 10 spellings over simple and extended protocol (denied Parse first or last in the batch), inside/outside transactions, plugins on and off: denied statements never appear at a mock and the client sees the permission error, intercepted queries return exactly the configured rows; distinct = lib inputs + wire (position,spelling,protocol,in-transaction,plugins)");
+        "lib leg: statements from the grammar with relation slots filled from {listed, unlisted, substring, column/alias-only} x 8 spellings x ~20 positions, execute_plugins verdict vs generator label, intercept rules modulo case/whitespace; wire leg: 11 positions x 13 spellings (incl. a listed mixed-case table that only its quoted spelling names) over simple and extended protocol (denied Parse first or last in the batch), inside/outside transactions, plugins on and off: denied statements never appear at a mock and the client sees the permission error, intercepted queries return exactly the configured rows; distinct = lib inputs + wire (position,spelling,protocol,in-transaction,plugins)");
     rep.assume("multi-statement messages in which only some statements equal an intercept rule are don't-care (the property speaks of a query matching a rule)");
     let lib_ok = libleg::run("C19", &rep, c19_sigmap);
     let n = if rep.thorough() { 500 } else { 48 };
